@@ -1036,6 +1036,17 @@ double SepCo::violation(void) const {
     return vio;
 }
 
+bool CmpSepCosByContent::operator()(const SepCo_SP &lhs, const SepCo_SP &rhs) const {
+    if (lhs->dim != rhs->dim) return lhs->dim < rhs->dim;
+    id_type ll = lhs->left->id(), rl = rhs->left->id();
+    if (ll != rl) return ll < rl;
+    id_type lr = lhs->right->id(), rr = rhs->right->id();
+    if (lr != rr) return lr < rr;
+    if (lhs->gap != rhs->gap) return lhs->gap < rhs->gap;
+    if (lhs->exact != rhs->exact) return rhs->exact;
+    return lhs < rhs;
+}
+
 cola::CompoundConstraints Projection::generateColaConstraints(const ColaGraphRep &cgr) {
     cola::CompoundConstraints ccs;
     for (SepCo_SP s : sepCoSet) {
